@@ -474,7 +474,9 @@ def r5(ck, F):
                     continue
                 tests = [option_test(c) for c in p.conds if c[0][0] == "discr"]
                 field_some = any(bt is not None and bt[0] == "call" and bt[1].endswith("as_field") and s for bt, s in tests)
-                if (ra[0][0] in p.blocks) != field_some:
+                field_tested = any(bt is not None and bt[0] == "call" and bt[1].endswith("as_field") for bt, s in tests)
+                nothing_to_do = all(option_test(c)[1] is False or c[0][0] == "const" for c in p.conds)     # e.g. a span without metadata
+                if (ra[0][0] in p.blocks) != field_some or not (field_tested or nothing_to_do):
                     ok = False
         if ok:
             ck.ok("C10.R5", "Span::record records exactly when the name is a declared field", fn=sr.path)
